@@ -248,13 +248,8 @@ def run_one(ctl: explorer.Ctl, cfg: Dict[str, Any]) -> Dict[str, Any]:
     loop = new_loop(horizon=600)
     q = seams.Quiescence(loop)
     state = {"i": -1, "redirected": False}
-    rids: List[Any] = []
-    for n, s in enumerate(steps):
-        base = REQ_KINDS[s["req"]]
-        rids.append(None if base is None else (f"{base}{n}" if isinstance(base, str) else base + 10 * n))
-
-    def beh(s):
-        return BEHAVIOURS[s["b"]] if isinstance(s["b"], int) else s["b"]
+    rids = request_ids(steps)
+    beh = _beh
 
     def handler(rec):
         if rec.method == "GET" and state["redirected"]:
@@ -341,6 +336,35 @@ def run_one(ctl: explorer.Ctl, cfg: Dict[str, Any]) -> Dict[str, Any]:
     posts = [r for r in px.requests if r.method == "POST"]
     if not px.requests:
         raise core.HarnessError("seam missing: no request reached httpx.AsyncHTTPTransport.handle_async_request")
+    got_dumped = [[dump_msg(m) for m in g] for g in got_per_step]
+    summary, viol = judge(steps, rids, got_dumped, [(r.json(), r.headers) for r in posts])
+    if errors:
+        viol.append({"sig": {"class": "loop-error"}, "msg": f"steps={steps}: {errors[:2]}"})
+    if leftover:
+        viol.append({"sig": {"class": "leftover-tasks"}, "msg": f"steps={steps}: {leftover} tasks left after the context"})
+    obs["outcome"] = "/".join(summary)
+    obs["posts"] = len(posts)
+    obs["steps"] = [[_tag(_beh(s)), s["req"], s.get("session")] for s in steps]
+    obs["violations"] = viol
+    return obs
+
+
+def _beh(s):
+    return BEHAVIOURS[s["b"]] if isinstance(s["b"], int) else s["b"]
+
+
+def request_ids(steps) -> List[Any]:
+    rids: List[Any] = []
+    for n, s in enumerate(steps):
+        base = REQ_KINDS[s["req"]]
+        rids.append(None if base is None else (f"{base}{n}" if isinstance(base, str) else base + 10 * n))
+    return rids
+
+
+def judge(steps, rids, got_per_step, posts):
+    """posts: [(json body, lower-cased headers)] of the POSTs in order.  Returns (summary, violations)."""
+    viol: List[dict] = []
+    beh = _beh
 
     def norm(m):
         return {k: v for k, v in m.items() if v is not None or k == "result"}
@@ -350,7 +374,7 @@ def run_one(ctl: explorer.Ctl, cfg: Dict[str, Any]) -> Dict[str, Any]:
     for n, s in enumerate(steps):
         b = beh(s)
         rid = rids[n]
-        got = [dump_msg(m) for m in (got_per_step[n] if n < len(got_per_step) else [])]
+        got = list(got_per_step[n]) if n < len(got_per_step) else []
         got = [norm(g) if isinstance(g, dict) else g for g in got]
         ex = expected(b, rid)
         tag = _tag(b)
@@ -365,9 +389,9 @@ def run_one(ctl: explorer.Ctl, cfg: Dict[str, Any]) -> Dict[str, Any]:
             bad("request-not-posted", "this request was never POSTed (sender loop stopped?)", earlier=_tag(beh(steps[n - 1]))["body"] if n else None)
             summary.append("unposted")
             continue
-        sent = posts[n].json()
+        sent, hdrs = posts[n]
         want_hdr = issued
-        have_hdr = posts[n].headers.get("mcp-session-id")
+        have_hdr = hdrs.get("mcp-session-id")
         if have_hdr != want_hdr:
             bad("session-header", f"POST carried Mcp-Session-Id {have_hdr!r}, most recently issued {want_hdr!r}")
         if not isinstance(sent, dict) or sent.get("id") != rid or (rid is not None and type(sent.get("id")) is not type(rid)):
@@ -399,15 +423,7 @@ def run_one(ctl: explorer.Ctl, cfg: Dict[str, Any]) -> Dict[str, Any]:
             else:
                 bad("wrong-messages", f"acceptable: {ex}")
         summary.append(how or "bad")
-    if errors:
-        viol.append({"sig": {"class": "loop-error"}, "msg": f"steps={steps}: {errors[:2]}"})
-    if leftover:
-        viol.append({"sig": {"class": "leftover-tasks"}, "msg": f"steps={steps}: {leftover} tasks left after the context"})
-    obs["outcome"] = "/".join(summary)
-    obs["posts"] = len(posts)
-    obs["steps"] = [[_tag(beh(s)), s["req"], s.get("session")] for s in steps]
-    obs["violations"] = viol
-    return obs
+    return summary, viol
 
 
 def _tag(b: Dict[str, Any]) -> Dict[str, Any]:
@@ -489,6 +505,10 @@ def run(tier: str, only=None) -> core.Result:
             continue
         out = explorer.explore(RUN, cfgs, fidelity=True)
         sched.absorb(res, name, RUN, out, cfgs)
+    if not only or "conformance" in only:
+        from . import c11_conf
+
+        c11_conf.add_conformance_part(res, tier)
     res.coverage["exhaustive"] = True
     res.coverage["behaviours"] = len(BEHAVIOURS)
     res.coverage["rule"] = (
